@@ -220,7 +220,7 @@ def _install_cache():
             p = os.path.abspath(os.fspath(name))
         except TypeError:
             p = ""
-        if p == cfgdir or p == os.path.dirname(cfgdir):
+        if p == cfgdir or p == os.path.dirname(cfgdir) or p in _CFG.get("mkdir_delay_paths", ()):
             emit("cache_mkdir", path=os.path.basename(p), existed=os.path.isdir(p))
             if maxd:
                 time.sleep(rng.random() * maxd)
